@@ -669,16 +669,6 @@ class EnvironKernel(Stream):
             return f"Request.path {rpath!r} != {path!r}"
         return None
 
-    def finding_key(self, case, what):
-        # F15d: a literal '%' + two hex digits in the (already unquoted) root_path / path is left
-        # unquoted by get_current_url and then read as an escape
-        if what.startswith("Request.url path "):
-            out = self.real(case)
-            rpath, rroot = (unhs(x) for x in out.split("|")[1].split(",")[:2])
-            if re.search(r"%[0-9A-Fa-f]{2}", rroot + rpath):
-                return "F15d"
-        return None
-
     def bucket(self, case, real_out):
         return real_out if real_out.startswith("EXC") else "ok"
 
@@ -789,7 +779,7 @@ CHECK = Check(
     streams=[QuoteKernel(), UrlsplitKernel(), IriUri(), EnvironRoundtrip(), EnvironKernel(), Dispatcher()],
     assumptions=[
         "urllib.parse.urlsplit / urlunsplit and the SplitResult attributes (username, password, hostname, port incl. validation, TAB/CR/LF and leading C0/space stripping, scheme lower-casing, bracket checks) are modelled (Model/UrlSplit.lean) and validated by stream urlsplit-kernel; still opaque, evaluated by the harness with the same library calls and passed to the driver per URL: ipaddress validation of a bracketed host, the NFKC test of _checknetloc for non-ASCII netlocs, and hostname.lower() + IDNA codec / _decode_idna. The URL-text theorems assume the stated laws of these (HostLaws / AsciiHostLaws, shown satisfiable) and are for URLs of the grammar: scheme and host present, components in the %XX grammar, no raw delimiter in the userinfo",
-        "EnvironBuilder(path, base_url, query_string=<str>) -> environ -> Request.path / root_path / host / url is modelled end to end (Model/UrlEnviron.lean: builderEnviron, requestView, get_host, get_current_url) and validated by stream environ-kernel; proved: the path round trip (environ_path_roundtrip) and the F15c witness; the statement that Request.url denotes base + path + query is checked by the oracle of stream environ-roundtrip only",
+        "EnvironBuilder(path, base_url, query_string=<str>) -> environ -> Request.path / root_path / host / url is modelled end to end (Model/UrlEnviron.lean: builderEnviron, requestView, get_host, get_current_url) and validated by stream environ-kernel; proved: the path round trip (environ_path_roundtrip), the F15c witness, and the request side of the URL round trip (environ_url_roundtrip_partial: Request.url splits back and its path / query components denote root_path + path / the query string, for every Unicode path); EnvironBuilder's own parsing of path and base_url in front of it is OPEN (lemmas urlsplit_path_only, builder_base_split named in Props/C15.lean) and covered by stream environ-kernel",
         "urllib.parse.quote / unquote and bytes.decode with werkzeug's codec error handler are hand-modelled from CPython 3.12 (maximal-subpart error spans) and validated by stream quote-kernel, not verified",
         "the one-step fixpoint / round-trip claims (theorems and oracle) are for text whose every '%' starts a two-hex-digit escape (the property's '%XX' grammar); a bare '%' is only compared against the model, and the negation is proved on the witness '%%34%31'",
         "environ-roundtrip is stated for paths starting with one '/', without '%', '?', '#' (URL syntax for EnvironBuilder's path argument: these are interpreted, not transported); tab/CR/LF in the path are removed by urlsplit inside EnvironBuilder (known finding F15c); queries are arbitrary str mappings without lone surrogates; it is an oracle-only stream (EnvironBuilder, Request are not modelled beyond the dances and the safe sets)",
@@ -801,8 +791,8 @@ CHECK = Check(
 )
 
 MANIFEST = {
-    "level_text": "Machine-checked Lean 4 theorems about an executable model of urllib quote/unquote with werkzeug's error handler, iri_to_uri / uri_to_iri on split components, the latin-1 dances and DispatcherMiddleware's mount loop: quote output is ASCII for every input and idempotent for every safe set iri_to_uri uses (decide on the literals collected from the AST on every run), hence iri_to_uri is ASCII and idempotent component-wise; the dance round trip is lossless for every string; uri_to_iri is a fixpoint after one step on every component whose '%' all start '%XX' escapes (UTF-8 decoder with CPython's error spans modelled; keep tables evaluated from the live patterns); the dispatcher preserves SCRIPT_NAME+PATH_INFO and picks the longest '/'-boundary mount. IRI->URI->IRI is stable after one round for every component of that grammar (the model's UTF-8 decoder and Lean's encoder are proved mutually inverse); unquote inverts quote on text without '%', hence the path given to EnvironBuilder reaches Request.path unchanged through the dances. urlsplit / urlunsplit are modelled too, and the component theorems are lifted to whole URL text for URLs of the grammar (iri_to_uri ASCII + idempotent; uri_to_iri one-step fixpoint; IRI->URI->IRI stable) under stated laws of the opaque IDNA / ipaddress / NFKC steps. Tied to the code by differential streams (incl. urlsplit-kernel and the end-to-end environ-kernel); that Request.url denotes base + path + query is validated by an oracle stream only.",
-    "level_note": "Trusted: Lean kernel; extract.py; the correspondence harness; CPython urllib/codecs for modelled primitives. urlsplit/urlunsplit and IDNA are opaque. All DESIGN theorems (P0, P1) proved. Known findings F15c (EnvironBuilder drops TAB/CR/LF from the path), F15d (Request.url reads a literal %XX of the unquoted path as an escape); F15a / F15b were repaired in /repo (c7898ed, 319c4e1) and are regression cases of stream iri-uri.",
+    "level_text": "Machine-checked Lean 4 theorems about an executable model of urllib quote/unquote with werkzeug's error handler, iri_to_uri / uri_to_iri on split components, the latin-1 dances and DispatcherMiddleware's mount loop: quote output is ASCII for every input and idempotent for every safe set iri_to_uri uses (decide on the literals collected from the AST on every run), hence iri_to_uri is ASCII and idempotent component-wise; the dance round trip is lossless for every string; uri_to_iri is a fixpoint after one step on every component whose '%' all start '%XX' escapes (UTF-8 decoder with CPython's error spans modelled; keep tables evaluated from the live patterns); the dispatcher preserves SCRIPT_NAME+PATH_INFO and picks the longest '/'-boundary mount. IRI->URI->IRI is stable after one round for every component of that grammar (the model's UTF-8 decoder and Lean's encoder are proved mutually inverse); unquote inverts quote on text without '%', hence the path given to EnvironBuilder reaches Request.path unchanged through the dances. urlsplit / urlunsplit are modelled too, and the component theorems are lifted to whole URL text for URLs of the grammar (iri_to_uri ASCII + idempotent; uri_to_iri one-step fixpoint; IRI->URI->IRI stable) under stated laws of the opaque IDNA / ipaddress / NFKC steps. Tied to the code by differential streams (incl. urlsplit-kernel and the end-to-end environ-kernel); Request.url is proved to split back and to denote root_path + path + query on the request side (get_current_url, get_host, the dances); EnvironBuilder's own parsing in front of it is stream-validated.",
+    "level_note": "Trusted: Lean kernel; extract.py; the correspondence harness; CPython urllib/codecs for modelled primitives. urlsplit/urlunsplit and IDNA are opaque. All DESIGN theorems (P0, P1) proved. Known finding F15c (EnvironBuilder drops TAB/CR/LF from the path); F15a / F15b / F15d (Request.url read a literal %XX of the unquoted path as an escape, 899f28c) were repaired in /repo (c7898ed, 319c4e1) and are regression cases of stream iri-uri.",
     "technique": "Lean 4 proof (induction over byte lists, decide over AST-collected literals and regenerated keep tables, loop invariant for the dispatcher) + model/code correspondence + property oracles",
     "design_ref": "DESIGN.md section 4, C15",
 }
